@@ -236,16 +236,19 @@ func (c *Ctx) SNBTFloatFormat(pkg string) []core.Ob {
 			}
 			k++
 			o := core.Ob{Rule: "T-SNBT", Key: fmt.Sprintf("float-format:%s#%d", core.FnName(fn), k), Pos: c.P.Pos(ci.Pos()), Func: core.FnName(fn), Armed: true, Status: core.OK,
-				Want: "floats are written without exponent ('f') or with an exponent behind a fraction ('e' with a precision of at least 1): the only number spellings the scanner reads back as numbers"}
+				Want: "floats are written exactly and in a spelling the scanner reads back as a number: 'f' with precision -1 (no exponent, shortest exact decimal)"}
 			f, okF := constIntVal(stripConv(args[off+1]))
 			p, okP := constIntVal(stripConv(args[off+2]))
 			switch {
 			case !okF:
 				o.Status, o.Got = core.Violated, "the format byte is not a constant"
+			case f == 'f' && okP && p == -1:
+				o.Got = "'f' with the shortest exact precision"
 			case f == 'f':
-				o.Got = "'f'"
-			case (f == 'e' || f == 'E') && okP && p >= 1:
-				o.Got = fmt.Sprintf("'%c' with precision %d", rune(f), p)
+				o.Status = core.Violated
+				o.Got = fmt.Sprintf("'f' with a fixed precision of %d digits: smaller magnitudes are written as 0.0000... and do not come back (finite floats are to round-trip exactly; precision -1 writes the shortest exact decimal)", p)
+			case (f == 'e' || f == 'E') && okP && p >= 17:
+				o.Got = fmt.Sprintf("'%c' with precision %d (exact, exponent behind a fraction)", rune(f), p)
 			default:
 				o.Status = core.Violated
 				o.Got = fmt.Sprintf("format '%c': values such as 1e+06 are written with an exponent and no fraction, which the scanner takes for an unquoted string (the float comes back as TAG_String)", rune(f))
@@ -2205,4 +2208,307 @@ func sameReflectValue(a, b ssa.Value) bool {
 	la, ok1 := a.(*ssa.UnOp)
 	lb, ok2 := b.(*ssa.UnOp)
 	return ok1 && ok2 && la.Op == token.MUL && lb.Op == token.MUL && la.X == lb.X
+}
+
+// ---------------------------------------------------------------------------
+// T-SNBT[print-range]: an integer the text writer prints with the suffix of a
+// tag is read back by the parser with strconv.ParseInt(s, 10, W) for that tag's
+// width W (T-SNBTSUF literal-width checks those widths). So what is printed lies
+// in the signed W-bit range: the interval the tainted-length interpreter computes
+// for the printed value (from the types and conversions on its way) is inside
+// it. A byte widened without a signed conversion prints 255B, which does not
+// parse.
+
+func (c *Ctx) SNBTPrintRange(pkg string) []core.Ob {
+	var obs []core.Ob
+	width := map[string]uint{"B": 8, "S": 16, "": 32, "L": 64}
+	t := c.TLG()
+	for _, fn := range c.Funcs() {
+		if !inPkgs(fn, pkg) {
+			continue
+		}
+		// only the text writer: it appends to a strings.Builder
+		hasBuilder := false
+		for _, p := range fn.Params {
+			if types.TypeString(deref(p.Type()), nil) == "strings.Builder" {
+				hasBuilder = true
+			}
+		}
+		if !hasBuilder {
+			continue
+		}
+		type site struct {
+			call   *ssa.Call
+			suffix string
+		}
+		var sites []site
+		for _, ci := range callsIn(fn, func(n string, _ *ssa.CallCommon) bool { return n == "strconv.FormatInt" || n == "strconv.Itoa" }) {
+			call, ok := ci.(*ssa.Call)
+			if !ok || call.Referrers() == nil {
+				continue
+			}
+			suffix, found := "", false
+			for _, r := range *call.Referrers() {
+				switch x := r.(type) {
+				case *ssa.BinOp:
+					if k, ok := x.Y.(*ssa.Const); ok && x.Op == token.ADD && x.X == ssa.Value(call) && k.Value != nil && k.Value.Kind() == constant.String {
+						suffix, found = strings.ToUpper(constant.StringVal(k.Value)), true
+					}
+				case ssa.CallInstruction:
+					// written as it is: no suffix (TagInt)
+					found = true
+				}
+			}
+			if _, known := width[suffix]; found && known {
+				sites = append(sites, site{call, suffix})
+			}
+		}
+		if len(sites) == 0 {
+			continue
+		}
+		ivs := map[*ssa.Call]*Iv{}
+		t.Probe(fn, func(in ssa.Instruction, eval func(ssa.Value) AV, _ func(string) (AV, bool)) {
+			for _, s := range sites {
+				if in == ssa.Instruction(s.call) {
+					ivs[s.call] = eval(s.call.Call.Args[0]).all()
+				}
+			}
+		})
+		for i, s := range sites {
+			w := width[s.suffix]
+			o := core.Ob{Rule: "T-SNBT", Key: fmt.Sprintf("print-range:%s#%d:%s", core.FnName(fn), i+1, s.suffix), Pos: c.P.Pos(s.call.Pos()), Func: core.FnName(fn), Armed: true, Status: core.OK,
+				Want: fmt.Sprintf("the integer printed with suffix %q lies in the signed %d-bit range its parser accepts", s.suffix, w)}
+			lo := new(big.Int).Neg(new(big.Int).Lsh(bi(1), w-1))
+			hi := new(big.Int).Sub(new(big.Int).Lsh(bi(1), w-1), bi(1))
+			iv := ivs[s.call]
+			switch {
+			case iv == nil || iv.Lo == nil || iv.Hi == nil:
+				if w < 64 {
+					o.Status, o.Got = core.Violated, "nothing bounds the printed value to the range of its tag"
+				}
+			case iv.Lo.Cmp(lo) < 0 || iv.Hi.Cmp(hi) > 0:
+				o.Status, o.Got = core.Violated, fmt.Sprintf("the printed value ranges over [%s, %s]: values outside [%s, %s] are written but refused when read back (an unsigned byte printed as 255B)", iv.Lo, iv.Hi, lo, hi)
+			default:
+				o.Got = fmt.Sprintf("[%s, %s]", iv.Lo, iv.Hi)
+			}
+			obs = append(obs, o)
+		}
+	}
+	return obs
+}
+
+// ---------------------------------------------------------------------------
+// T-SCANSTATE[delegated-skip-space]: the scanner's state functions call one
+// another ("the number ended here, so this byte is whatever follows a value").
+// A state function that other state functions call, and that answers "skip this
+// blank", has to make itself the current state before it returns: otherwise the
+// state that delegated stays current, and the byte after the blank continues
+// the literal that had ended (`[1 2]` reads as one literal and the decoder, out
+// of step with the scanner, panics).
+
+func (c *Ctx) ScannerDelegatedSkip(pkg string) []core.Ob {
+	var obs []core.Ob
+	// state functions: func(*scanner, byte) int of the package, where scanner is the struct with a `step` field of that type
+	isState := func(fn *ssa.Function) bool {
+		sig := fn.Signature
+		if sig.Recv() != nil || sig.Params().Len() != 2 || sig.Results().Len() != 1 {
+			return false
+		}
+		if _, ok := deref(sig.Params().At(0).Type()).Underlying().(*types.Struct); !ok {
+			return false
+		}
+		b, ok := sig.Params().At(1).Type().Underlying().(*types.Basic)
+		r, ok2 := sig.Results().At(0).Type().Underlying().(*types.Basic)
+		return ok && ok2 && b.Kind() == types.Uint8 && r.Kind() == types.Int
+	}
+	var states []*ssa.Function
+	for _, fn := range c.Funcs() {
+		if inPkgs(fn, pkg) && fn.Parent() == nil && isState(fn) {
+			states = append(states, fn)
+		}
+	}
+	// the "skip space" code: the constant returned by the begin-value state for a blank - taken as the
+	// package constant named scanSkipSpace
+	var skip *big.Int
+	for _, pk := range c.P.Pkgs {
+		if core.Rel(pk.PkgPath) == pkg {
+			if k, ok := pk.Types.Scope().Lookup("scanSkipSpace").(*types.Const); ok {
+				if v, ok := constant.Int64Val(k.Val()); ok {
+					skip = bi(v)
+				}
+			}
+		}
+	}
+	if skip == nil || len(states) < 5 {
+		return []core.Ob{{Rule: "T-SCANSTATE", Key: "delegated-skip-space:anchor", Armed: true, Status: core.Violated, Want: "the scanner's state functions and its skip-space code are found", Got: fmt.Sprintf("%d state functions", len(states))}}
+	}
+	// delegated with a byte that may be a blank: call sites that are not behind "this byte is not a
+	// blank" (the false edge of isSpace(c), or the true edge of c == some visible character)
+	notBlankAt := func(fn *ssa.Function, at *ssa.BasicBlock) bool {
+		if len(fn.Params) < 2 {
+			return false
+		}
+		cp := ssa.Value(fn.Params[1])
+		for _, d := range fn.Blocks {
+			if len(d.Succs) != 2 {
+				continue
+			}
+			iff, ok := d.Instrs[len(d.Instrs)-1].(*ssa.If)
+			if !ok {
+				continue
+			}
+			var edge *ssa.BasicBlock
+			switch x := iff.Cond.(type) {
+			case *ssa.Call:
+				if g := x.Call.StaticCallee(); g != nil && g.Name() == "isSpace" && len(x.Call.Args) == 1 && x.Call.Args[0] == cp {
+					edge = d.Succs[1]
+				}
+			case *ssa.BinOp:
+				if kv, ok := constIntVal(x.Y); ok && x.X == cp && kv != ' ' && kv != '\t' && kv != '\n' && kv != '\r' {
+					if x.Op == token.EQL {
+						edge = d.Succs[0]
+					}
+				}
+			}
+			if edge != nil && len(edge.Preds) == 1 && (edge == at || edge.Dominates(at)) {
+				return true
+			}
+		}
+		return false
+	}
+	delegated := map[*ssa.Function]bool{}
+	for _, fn := range states {
+		for _, ci := range callsIn(fn, func(_ string, cc *ssa.CallCommon) bool { return cc.StaticCallee() != nil }) {
+			g := core.Origin(ci.Common().StaticCallee())
+			for _, s := range states {
+				if s == g && g != fn && !notBlankAt(fn, ci.Block()) {
+					delegated[g] = true
+				}
+			}
+		}
+	}
+	for _, fn := range states {
+		if !delegated[fn] {
+			continue
+		}
+		k := 0
+		for _, b := range fn.Blocks {
+			ret, ok := b.Instrs[len(b.Instrs)-1].(*ssa.Return)
+			if !ok || len(ret.Results) != 1 {
+				continue
+			}
+			// the returned value, per incoming edge when it is a phi
+			type cand struct {
+				v    ssa.Value
+				from *ssa.BasicBlock
+			}
+			cands := []cand{{ret.Results[0], b}}
+			if phi, ok := ret.Results[0].(*ssa.Phi); ok && phi.Block() == b {
+				cands = nil
+				for i, e := range phi.Edges {
+					cands = append(cands, cand{e, b.Preds[i]})
+				}
+			}
+			for _, cd := range cands {
+				kv, ok := constIntVal(cd.v)
+				if !ok || kv != skip.Int64() {
+					continue
+				}
+				k++
+				o := core.Ob{Rule: "T-SCANSTATE", Key: fmt.Sprintf("delegated-skip-space:%s#%d", core.FnName(fn), k), Pos: c.P.Pos(ret.Pos()), Func: core.FnName(fn), Armed: true, Status: core.OK,
+					Want: "a state function that other states delegate to sets the scanner's step before it answers \"skip this blank\""}
+				set := false
+				for _, d := range fn.Blocks {
+					if !(d == cd.from || d.Dominates(cd.from)) {
+						continue
+					}
+					for _, in := range d.Instrs {
+						if st, ok := in.(*ssa.Store); ok {
+							if fa, ok := st.Addr.(*ssa.FieldAddr); ok && fa.X == ssa.Value(fn.Params[0]) {
+								if _, isFn := deref(fa.Type()).Underlying().(*types.Signature); isFn {
+									set = true
+								}
+							}
+						}
+					}
+				}
+				if !set {
+					o.Status, o.Got = core.Violated, "the step is left as it was: the state that delegated stays current and the byte after the blank continues the value that had ended"
+				}
+				obs = append(obs, o)
+			}
+		}
+	}
+	return obs
+}
+
+// ---------------------------------------------------------------------------
+// R-ORDER[text-entry:end-of-input-checked]: the text-to-binary entry point
+// reports success only after the scanner has been asked about the end of the
+// input (its eof method): `{a:1}x`, `1 2` and a literal cut short are errors,
+// not documents.
+
+func (c *Ctx) TextEntryEOF(fnName string) []core.Ob {
+	o := core.Ob{Rule: "R-ORDER", Key: "text-entry:end-of-input-checked:" + fnName, Armed: true, Status: core.OK,
+		Want: "every success return of the text entry point lies behind a call of the scanner's end-of-input check made after the value was converted"}
+	fn := c.Fn(fnName)
+	if fn == nil {
+		o.Status, o.Got = core.Violated, fnName+" not found"
+		return []core.Ob{o}
+	}
+	o.Pos, o.Func = c.P.Pos(fn.Pos()), core.FnName(fn)
+	v := c.inlineView(fn, 1)
+	// the value conversion: the call (in the root frame) of a function of the package that is handed the decode state
+	conv := -1
+	for _, n := range v.nodes {
+		if n.frame.parent != nil {
+			continue
+		}
+		ci, ok := n.in.(*ssa.Call)
+		if !ok {
+			continue
+		}
+		g := ci.Call.StaticCallee()
+		if g == nil || core.FnPkg(g) != core.FnPkg(fn) || g.Signature.Recv() != nil {
+			continue
+		}
+		if isErrorType(ci.Type()) || (ci.Type().String() != "" && strings.Contains(ci.Type().String(), "error")) {
+			conv = n.id
+		}
+	}
+	if conv < 0 {
+		o.Status, o.Got = core.Violated, "the call that converts the value is not recognised"
+		return []core.Ob{o}
+	}
+	isEOF := func(n *inode) bool {
+		ci, ok := n.in.(ssa.CallInstruction)
+		if !ok {
+			return false
+		}
+		g := ci.Common().StaticCallee()
+		return g != nil && g.Name() == "eof" && g.Signature.Recv() != nil
+	}
+	// success exits of the root that can follow the conversion without an eof check
+	var eofs []int
+	for _, n := range v.nodes {
+		if isEOF(n) {
+			eofs = append(eofs, n.id)
+		}
+	}
+	for _, n := range v.nodes {
+		ret, ok := n.in.(*ssa.Return)
+		if !ok || n.frame.parent != nil || len(ret.Results) == 0 {
+			continue
+		}
+		if !v.reachAvoidingErrAware(conv, n.id, eofs) {
+			continue
+		}
+		res := ret.Results[len(ret.Results)-1]
+		if errKnownNonNil(res, ret.Block()) {
+			continue
+		}
+		o.Status, o.Pos = core.Violated, c.P.Pos(ret.Pos())
+		o.Got = "a return that can report success is reached after the conversion without the end of the input having been checked: text after the value (or a value cut short) goes unnoticed"
+	}
+	return []core.Ob{o}
 }
